@@ -7,7 +7,6 @@ from vlib import zlit, zlist, blit, listlit, optlit
 PROP = 'C05'
 UNEQUAL = 'epochs of different lengths complete at the same send'
 KNOWN_KEY = 'unequal-durations-complete-in-one-send'
-ZERO_KEY = 'epoch-size-zero-treated-as-none'
 REQUIRES = ['Extract.Model', 'Extract.Spec']
 RULE = ('drives the real extract_epochs coroutine send by send. (1) one request: every start lo in [-1, total] x length n in '
         '{0,1,2,4,5,9} x arrival call x look-back B in {0,3,4,9} over fixed chunkings (equal, ragged with empty and 1-sample chunks); '
@@ -21,7 +20,16 @@ RULE = ('drives the real extract_epochs coroutine send by send. (1) one request:
         'off-grid poststim and epoch_size, enumerated (non-tie combinations only) and seeded random, judged against '
         '[round((t0-prestim)*fs), +round((size+poststim+prestim)*fs)), '
         'duplicate (t0,key); 1-D and 2-channel, plain ndarray and PipelineData input. (4) fixed cases for the missed-start branch, '
-        'stacking of empty/missed epochs, duplicates, unequal durations. Non-trivial: some epoch spans a chunk boundary, is '
+        'stacking of empty/missed epochs, duplicates, unequal durations. (5) API-surface sweep: fs as float/int/np.float64 (1, 1000, '
+        '44100, 48000, 195312.5), epoch_size None/float/np/0/0.0, buffer_size omitted/off-grid (B+-.4 with the request at and one '
+        'before the look-back edge), empty_queue_cb None/lambda/falsy callable, removed_queue None/deque, prestim/poststim omitted/'
+        'negative/off-grid, source_complete omitted/Event; info dicts with/without key, metadata, duration (duration present but '
+        'epoch_size given), keys 0/""/False/tuple/huge int, t0 int/np.float64, a request 1e9 samples ahead; chunk dtype '
+        'float64/float32/int16/int32, 1/2/3 channels, channel labels str/None/falsy+tuple, chunk metadata empty, PipelineData s0 '
+        'offset -7/100, read-only chunks; always: the caller overwrites every request dict after the send that consumed it and every '
+        'delivered block after receiving it, chunks must stay untouched, delivered dtype/ndim/labels/fs checked. (6) capture_epoch '
+        'stand-alone: 8 send splittings (contiguous, late start, gap, overlap, empty) x start 0..9 x length {0,1,3,5}, plain and '
+        'PipelineData, info with/without metadata, float epoch_s0, NumPy epoch_samples, fs None. Non-trivial: some epoch spans a chunk boundary, is '
         'captured from the look-back buffer, or a removal names a request of the schedule. Distinct = distinct case dicts.')
 TRUSTED = ['harness/C05.py (schedule generators; computing lo = round((t0 - prestim)*fs), n = round((size + poststim + prestim)*fs), '
            'B = round(buffer_size*fs) with the float expressions of pipeline.py 743/816-818; mapping (t0, key) pairs to integers; '
@@ -30,7 +38,9 @@ TRUSTED = ['harness/C05.py (schedule generators; computing lo = round((t0 - pres
            'np.concatenate / PipelineData.__getitem__ / concat as modelled by list append, py_slice and Model.stack_ok']
 ASSUMPTIONS = ['PipelineData chunks carry s0 = number of samples sent before them (a continuous stream from sample 0); the extractor '
                'itself indexes by its own sample counter tlb, not by the chunk s0, while the delivered epoch s0 comes from the chunk s0',
-               'buffer_size >= 0; n >= 0; all chunks of a stream carry the same metadata',
+               'buffer_size >= 0; n >= 0; all chunks of a stream carry the same metadata; the caller does not write into a chunk '
+               'after sending it (pending captures and the look-back buffer hold views of it, by design)',
+               'for PipelineData streams that do not start at sample 0 the delivered block s0 is compared after subtracting the offset',
                'theorem preconditions: distinct (t0,key) per schedule (duplicates raise ValueError by design), epochs that become '
                'complete at the same send equally long (they are stacked into one array; always true with epoch_size given; '
                'violated inputs are the known finding ' + KNOWN_KEY + '), each request visible within the look-back '
@@ -95,29 +105,13 @@ def _epoch_size(case):
     return np.float64(v) if t == 'np' else v
 
 
-_ZERO_FALSY = []
-
-
-def _zero_size_uses_duration():
-    """pipeline.py 815 reads `epoch_size if epoch_size else info['duration']`: does the tree under test treat
-    epoch_size=0.0 like None?  (asked of the code itself, so that the model input stays what the code computes)"""
-    if not _ZERO_FALSY:
-        from collections import deque
-        from psiaudio.pipeline import extract_epochs
-        out = []
-        ex = extract_epochs(fs=1000.0, queue=deque([{'t0': 0.0, 'duration': 0.002}]), epoch_size=0.0, target=out.append)
-        ex.send(np.arange(5.0))
-        _ZERO_FALSY.append(bool(out) and out[0].shape[-1] == 2)
-    return _ZERO_FALSY[0]
-
-
 def _has_dur(case, q):
     return q[2] is not None and (case['size'] is None or case.get('withdur', False))
 
 
 def _effective(case, mode='code'):
-    """Everything the integer model needs, computed with the code's own float expressions (mode 'code'), or what
-    the property text asks for (mode 'prop'; differs only for epoch_size=0, see ZERO_KEY)."""
+    """Everything the integer model needs, computed with the code's own float expressions; epoch_size=0 (any falsy
+    number) is a size, only None selects the per-request `duration` (repaired in 12e29f4)."""
     fs = _fs(case)
     pre, post = _times(case)
     B = 0 if case.get('bdef') else round((case['B'] / fs) * fs)
@@ -127,7 +121,7 @@ def _effective(case, mode='code'):
         return keyids.setdefault((t0, _key(key)), len(keyids))
     feeds = []
     rid = 0
-    use_dur = case['size'] is None or (mode == 'code' and case['size'] == 0 and _zero_size_uses_duration())
+    use_dur = case['size'] is None
     for f in case['feeds']:
         reqs = []
         for q in f['reqs']:
@@ -169,11 +163,12 @@ def _impl_capture(case):
     ns = np.int64(case['n']) if case.get('nnp') else case['n']
     kw = {} if case.get('fsnone') else {'fs': 1000.0}
     cap = capture_epoch(s0, ns, info, out.append, **kw)
-    obs, sends, notes = [], [], []
+    obs, sends, notes, given = [], [], [], []
     for slb, m in case['sends']:
         base = np.array([_val(case, i) for i in range(slb, slb + m)], dtype=dt)
         sends.append([slb, [int(v) for v in base]])
         data = PipelineData(base, fs=1000.0, s0=slb, metadata=dict(CHUNK_MD)) if annot else base
+        given.append((data, np.array(data, copy=True)))
         n_out = len(out)
         stopped = False
         try:
@@ -199,6 +194,10 @@ def _impl_capture(case):
                 want = dict(CHUNK_MD, **info.get('metadata', {}), **{k: v for k, v in info.items() if k != 'metadata'})
                 if not isinstance(arr, PipelineData) or arr.metadata != want or arr.s0 != case['lo']:
                     notes.append(f'annotated epoch carries {getattr(arr, "metadata", None)}, s0 {getattr(arr, "s0", None)}')
+            # aliasing: the caller may overwrite what it received; that must not reach the chunks it had sent
+            np.asarray(arr)[...] = dt.type(77)
+            if any(not np.array_equal(np.asarray(g), c) for g, c in given):
+                notes.append('the delivered epoch shares memory with a chunk of the caller')
         break
     if info != ({} if case.get('nomd') else {'metadata': {'rid': 7}, 'x': 1}):
         notes.append('capture_epoch modified the info dict of its caller')
@@ -228,7 +227,15 @@ def impl(case):
     kw = {}
     if not case.get('bdef'):
         kw['buffer_size'] = case['B'] / fs
-    if case.get('cb', True):
+    if case.get('cb', True) == 'falsy':
+        class FalsyCallback:                  # a callable whose truth value is False: only None means "no callback"
+            def __call__(self):
+                fired.append(1)
+
+            def __bool__(self):
+                return False
+        kw['empty_queue_cb'] = FalsyCallback()
+    elif case.get('cb', True):
         kw['empty_queue_cb'] = lambda: fired.append(1)
     rq = None
     if case.get('rq', True):
@@ -573,8 +580,6 @@ def nontrivial(case, res):
 def key(case, res):
     if case.get('t') == 'cap':
         return None
-    if case.get('size') == 0:
-        return ZERO_KEY
     try:
         pre_ok, why, reqs, ends = _analyse(case, res)
     except Exception:
@@ -617,7 +622,7 @@ def distribution(cases, results):
 # --------------------------------------------------------------------------------------------
 def _case(kind, fs, B, feeds, size=None, pre=('zero', 0), post=('zero', 0), sc=False, vals='idx', zero_size=False, **opts):
     if size == 0 and not zero_size:
-        size = None      # zero-length epochs through per-request `duration` (third entry); epoch_size=0 itself: see ZERO_KEY
+        size = None      # zero-length epochs through per-request `duration` (third entry); epoch_size=0 itself: zero_size=True
     c = {'kind': kind, 'fs': fs, 'B': B, 'size': size, 'pre': list(pre), 'post': list(post), 'sc': sc,
          'vals': vals, 'feeds': feeds}
     c.update(opts)
@@ -888,7 +893,7 @@ def _audit(tier, rng):
     variants = [
         dict(fstype='int'), dict(fstype='np'), dict(dtype='int16'), dict(dtype='int32'), dict(dtype='float32'),
         dict(nch=1), dict(nch=3), dict(nch=3, chlabels='mixed'), dict(chlabels='none'), dict(chlabels='mixed'),
-        dict(s0off=-7), dict(s0off=100), dict(chunk_md=False), dict(ro=True), dict(cb=False),
+        dict(s0off=-7), dict(s0off=100), dict(chunk_md=False), dict(ro=True), dict(cb=False), dict(cb='falsy'),
         dict(dtype='int16', ro=True, fstype='np', nch=3), dict(withdur=True), dict(sizetype='np'),
     ]
     for v in variants:
@@ -935,7 +940,7 @@ def _audit(tier, rng):
             for a in (2, 3):
                 i += 1
                 yield _case(KINDS[i % 4], 1000.0, Bk, _feeds([4, 4, 4, 4, 4], {a: [[lo, None, 6]]}), size=6)
-    # epoch_size = 0 (a float, not None): the window is prestim + poststim only            [ZERO_KEY]
+    # epoch_size = 0 (a float, not None): the window is prestim + poststim only
     for st in ('float', 'int', 'np'):
         for kind in ('N1', 'P2'):
             for wd in (False, True):
@@ -977,6 +982,4 @@ def cases(tier, rng):
 # replayed on every run while the finding is listed in known_findings.txt
 KNOWN_WITNESSES = {
     KNOWN_KEY: _case('N1', 1000.0, 0, _feeds([10], {0: [[1, None, 3], [2, None, 4]]})),
-    ZERO_KEY: _case('N1', 1000.0, 0, _feeds([10], {0: [[5, None, 4]]}), size=0, zero_size=True, withdur=True,
-                    pre=('grid', 2), post=('grid', 1)),
 }
